@@ -152,6 +152,50 @@ def run(ctx: Ctx):
     finally:
         tzp.use_default()
     ctx.notes.append(f"fixture rewrites parsed: {nfix}")
+
+    # ------------------------------------------------------------- scale: the same invariance on texts of 5 KiB .. 600 KiB
+    # (block-wise readers, buffer limits: a fold or a line break may sit on any boundary)
+    def big(n_events, pad):
+        out = ["BEGIN:VCALENDAR", "VERSION:2.0", "PRODID:-//verif//scale//EN", "X-PAD:" + "p" * pad]
+        for i in range(n_events):
+            out += ["BEGIN:VEVENT", f"UID:event-{i}@example.com", f"DTSTART;TZID=Europe/Berlin:2024{1 + i % 12:02d}{1 + i % 28:02d}T{i % 24:02d}0000",
+                    "SUMMARY:" + ("summary %d with spaces and words " % i) * 4,
+                    "ATTENDEE;CN=\"Person Number %d, Esq.\";ROLE=REQ-PARTICIPANT:mailto:person%d@example.com" % (i, i),
+                    "DESCRIPTION:" + "".join(chr(0xE9 + (i + j) % 3) if j % 7 == 0 else "abcdefghij"[j % 10] for j in range(60 + i % 90)),
+                    "BEGIN:VALARM", "ACTION:DISPLAY", "TRIGGER:-PT%dM" % (i % 50), "END:VALARM", "END:VEVENT"]
+        out.append("END:VCALENDAR")
+        return "\r\n".join(out) + "\r\n"
+
+    sizes = [(12, 0), (160, 0), (160, 1), (330, 2)] if ctx.quick else [(12, 0), (40, 1), (160, 0), (160, 1), (161, 7), (330, 2), (700, 3), (1500, 5)]
+    try:
+        for prov in ("zoneinfo", "pytz") if not ctx.quick else ("zoneinfo",):
+            tzp.use(prov)
+            for n_events, pad in sizes:
+                text = big(n_events, pad)
+                base = pc.real_parse(text, True)
+                if base[0] != "ok" or len(base[1]) != 1 or len(base[1][0].subcomponents) != n_events:
+                    raise Machinery("scale family: the plain rendering is not accepted as written")
+                base_ser = base[1][0].to_ical()
+                base_tree = pc.full_alpha(base[1][0])
+                for fold_mode in (1, 2, 3):
+                    for eol in ("crlf", "lf"):
+                        for as_str in (False, True):
+                            how = {"eol": eol, "bom": (not as_str) and fold_mode == 2, "str": as_str, "fold": fold_mode, "case": 0, "trail": fold_mode % 2}
+                            data = rewrite_text(text, how, rnd)
+                            case = {"scale": [n_events, pad], "bytes": len(data), "how": how, "provider": prov}
+                            ctx.case(("scale", prov, n_events, pad, repr(how)), True)
+                            got = pc.real_parse(data, True)
+                            if got[0] != "ok" or len(got[1]) != 1:
+                                ctx.fail("P:C09:rewrite-accepted", case, str(got[1])[:200], None)
+                                continue
+                            if pc.full_alpha(got[1][0]) != base_tree:
+                                a, b = pc.full_alpha(got[1][0]), base_tree
+                                d = next((i for i, (x, y) in enumerate(zip(a["kids"], b["kids"])) if x != y), -1)
+                                ctx.fail("P:C09:same-tree", case, {"first_differing_event": d, "errors": [len(k.errors) for k in got[1][0].subcomponents if k.errors][:3]}, None)
+                            elif got[1][0].to_ical() != base_ser:
+                                ctx.fail("P:C09:same-reserialisation", case, None, None)
+    finally:
+        tzp.use_default()
     ctx.assumptions += [
         "fixture files containing a backslash or percent sign are excluded from the rewrite comparison (known findings C07-K2 / C08-K1 would be re-reported through a different fold position)",
         "BOM applies to bytes input only; a str is not given a leading U+FEFF",
